@@ -301,7 +301,34 @@ func TestC19(t *testing.T) {
 				tfp, tfa = small(), small()
 				navs = append(navs, exchange.NetAssetPrice{Assets: sdk.NewCoin(interm, sdkmath.NewIntFromBigInt(tfa)), Price: sdk.NewCoin(feeDenom, sdkmath.NewIntFromBigInt(tfp))})
 			}
-			aa := []exchange.AccountAmount{{Account: addrN(1).String(), Amount: inputs}}
+			// the inputs come from one to three accounts; the charge is on the total
+			nacc := 1 + r.Intn(3)
+			parts := make([]sdk.Coins, nacc)
+			for _, c := range inputs {
+				rest := c.Amount
+				for k := 0; k < nacc-1 && rest.IsPositive(); k++ {
+					if r.Intn(2) == 0 {
+						continue
+					}
+					p := sdkmath.NewIntFromBigInt(new(big.Int).Rand(r, new(big.Int).Add(rest.BigInt(), big.NewInt(1))))
+					if p.IsPositive() {
+						parts[k] = parts[k].Add(sdk.NewCoin(c.Denom, p))
+						rest = rest.Sub(p)
+					}
+				}
+				if rest.IsPositive() {
+					parts[nacc-1] = parts[nacc-1].Add(sdk.NewCoin(c.Denom, rest))
+				}
+			}
+			var aa []exchange.AccountAmount
+			for k, pc := range parts {
+				if !pc.IsZero() {
+					aa = append(aa, exchange.AccountAmount{Account: addrN(1 + 10*k).String(), Amount: pc})
+				}
+			}
+			if len(aa) > 1 {
+				w.Count("commitment_fee_inputs_from_several_accounts")
+			}
 			req := &exchange.MsgMarketCommitmentSettleRequest{Admin: addrN(2).String(), MarketId: marketID, Inputs: aa, Outputs: aa, Navs: navs}
 			var resp *exchange.QueryCommitmentSettlementFeeCalcResponse
 			err := try(func() error {
@@ -772,6 +799,73 @@ func TestC19(t *testing.T) {
 				}
 			}
 			w.Nontrivial("m/" + term)
+		}
+	}
+	// --- Keeper.CalculateExchangeSplit on fees in several denoms with per-denom splits ---
+	{
+		sdenoms := []string{"Splitcoin", "splitcoi", "splitcoin", "splitcoin.x", "splitcoinx"} // byte order
+		ns := scale(200, 6000)
+		for i := 0; i < ns; i++ {
+			ctx, _ := baseCtx.CacheContext()
+			dflt := uint32([]int{0, 1, 77, 500, 5000, 10000}[r.Intn(6)])
+			var ds []exchange.DenomSplit
+			var tbl []string
+			for k, d := range sdenoms {
+				if r.Intn(2) == 0 {
+					sp := uint32(r.Intn(10001))
+					if r.Intn(3) == 0 {
+						sp = []uint32{0, 1, 9999, 10000, 500}[r.Intn(5)]
+					}
+					ds = append(ds, exchange.DenomSplit{Denom: d, Split: sp})
+					tbl = append(tbl, fmt.Sprintf("(%d%%N, %d)", k, sp))
+				}
+			}
+			app.ExchangeKeeper.SetParams(ctx, &exchange.Params{DefaultSplit: dflt, DenomSplits: ds})
+			var fee sdk.Coins
+			var coins []string
+			for k, d := range sdenoms {
+				if r.Intn(3) == 0 {
+					continue
+				}
+				amt := randAmount(r, pool)
+				if amt.BitLen() > 230 {
+					amt.Rsh(amt, uint(amt.BitLen()-230))
+				}
+				if r.Intn(4) == 0 {
+					amt.Mul(big.NewInt(r.Int63n(1000000)), big.NewInt(10000))
+					amt.Add(amt, big.NewInt(int64(r.Intn(3)-1)))
+					if amt.Sign() < 0 {
+						amt.SetInt64(0)
+					}
+				}
+				if amt.Sign() == 0 && r.Intn(2) == 0 {
+					continue // a zero coin inside Coins is only reachable with a hand-built list; keep some
+				}
+				fee = append(fee, sdk.Coin{Denom: d, Amount: sdkmath.NewIntFromBigInt(amt)})
+				coins = append(coins, fmt.Sprintf("(%d%%N, %s)", k, zBig(amt)))
+			}
+			var res sdk.Coins
+			err := try(func() error { res = app.ExchangeKeeper.CalculateExchangeSplit(ctx, fee); return nil })
+			obs := "None"
+			if err == nil {
+				var it []string
+				for _, c := range res {
+					id := 999
+					for k, d := range sdenoms {
+						if d == c.Denom {
+							id = k
+						}
+					}
+					it = append(it, fmt.Sprintf("(%d%%N, %s)", id, zInt(c.Amount)))
+				}
+				obs = "(Some " + coqList(it) + ")"
+			}
+			term := fmt.Sprintf("CExSplitCoins %d %s %s %s", dflt, coqList(tbl), coqList(coins), obs)
+			w.Add(term, desc{"fn": "CalculateExchangeSplit (several denoms)", "default_split": dflt, "denom_splits": fmt.Sprint(ds), "fee": fee.String(), "ok": err == nil})
+			w.Count("exchange_split_multi_denom")
+			if err == nil && len(res) > 1 {
+				w.Nontrivial("xs/" + term)
+			}
 		}
 	}
 	w.Flush(t)
